@@ -5,6 +5,8 @@
   independent strict specification parser reads every in-range encoding back to the same tree.
 -/
 import KmipModel.Lemmas.WireLemmas
+import KmipModel.Lemmas.FixpointLemmas
+import KmipModel.Model.Plan
 namespace Kmip.C03
 open Kmip
 
@@ -74,9 +76,65 @@ theorem specDecode_enc (t : Item) (h : t.InRange) : specDecode (enc t) = some t 
   rw [List.append_nil] at this
   simp [specDecode, this]
 
-/-- 10. `encodeBig` is the shortest 8-byte-aligned two's complement encoding of its value. -/
+/-- 10. (beyond the property text, which only asks for sign extension to a multiple of 8 bytes; a fact
+    about the current code, not in `required_theorems`) `encodeBig` is the shortest 8-byte-aligned two's complement encoding of its value. -/
 theorem encodeBig_minimal (v : Int) (bs : Bytes) (hne : bs ≠ []) (h8 : bs.length % 8 = 0)
     (hv : twos bs = v) : (encodeBig v).length ≤ bs.length :=
   encodeBig_minimal_aux v bs hne h8 hv
+
+/-! ### The converse clause: "any well-formed encoding produced by the independent generator decodes
+     to the same tree" -/
+
+/-- 11. whatever the independent strict parser (`specDecode`, written from KMIP 1.4 §9.1; it does not
+    mention `enc` or the reader) accepts, the library's generic decoder (`unmarshalValue`, the model of
+    `ttlv.UnmarshalTTLV` into a `ttlv.Value`) reads as the SAME tree — for every byte string, no bound
+    on length, depth or sibling count. (Also stated for C18 as `C18.strict_accepts_imply_lenient`.) -/
+theorem strict_accepts_library_decodes (bs : Bytes) (t : Item) (h : specDecode bs = some t) :
+    unmarshalValue bs = .ok t :=
+  unmarshalValue_of_specDecode bs t h
+
+/-- 11'. in particular the library reads back its own encodings of in-range trees (composition of 9
+    and 11: the round trip goes through the independent parser, not through a shared mistake). -/
+theorem library_decodes_enc (t : Item) (h : t.InRange) : unmarshalValue (enc t) = .ok t :=
+  strict_accepts_library_decodes _ _ (specDecode_enc t h)
+
+/-- an over-long (non-minimal, 16-byte) big integer 1: well-formed per the specification. -/
+def big16 : Bytes := [0x42, 0, 0x0B, 4, 0, 0, 0, 16, 0, 0, 0, 0, 0, 0, 0, 0, 0, 0, 0, 0, 0, 0, 0, 1]
+
+set_option maxRecDepth 8192 in
+/-- non-vacuity of 11 on an input that is NOT an output of `enc` (the writer is minimal): the strict
+    parser accepts it, hence so does the library, with the same value. -/
+theorem strict_accepts_big16 : specDecode big16 = some (.big 0x42000B 1) := by rfl
+
+example : unmarshalValue big16 = .ok (.big 0x42000B 1) :=
+  strict_accepts_library_decodes _ _ strict_accepts_big16
+
+/-- … the writer itself emits the 8-byte form. -/
+example : (encodeBig 1).length = 8 ∧ big16.length = 24 := by
+  refine ⟨?_, rfl⟩
+  rw [encodeBig_pos _ (by decide)]
+  simp [posPad, natToBytesBE, padForLen]
+
+/-! ### "Every binary encoding produced by the library", KMIP messages included -/
+
+/-- 12. the typed encoder (`ttlv.MarshalTTLV` on a request/response message, payload, object or
+    attribute value of ANY schema, any dynamic type, any tag): whenever it succeeds its output is the
+    `enc`-encoding of a list of generic items, so it is 8-aligned and — when the items are representable
+    (tags in (0, 2^24), lengths < 2^32) — the independent strict parser reads exactly those items back. -/
+theorem typed_encoding_wellformed (S : Schema) (d tag : Nat) (v : Val) (bs : Bytes)
+    (h : marshal S d tag v = .ok bs) :
+    ∃ items, bs = encList items ∧ bs.length % 8 = 0
+      ∧ (Item.AllInRange items → ∀ fuel, Item.sizeList items ≤ fuel → specParseList fuel bs = some items) := by
+  unfold marshal at h
+  dsimp only at h
+  cases he : encK S 100000 (S.dyn d).kind (if tag = 0 then (S.dyn d).defTag else tag) v none with
+  | ok p =>
+    obtain ⟨items, w⟩ := p
+    rw [he] at h
+    simp only [Res.ok_bind, Res.pure_eq, Res.ok.injEq] at h
+    subst h
+    exact ⟨items, rfl, encList_len8 items, fun hr fuel hf => specParseList_enc items hr fuel hf⟩
+  | err e => rw [he] at h; simp only [Res.err_bind] at h; contradiction
+  | panic m => rw [he] at h; simp only [Res.panic_bind] at h; contradiction
 
 end Kmip.C03
